@@ -330,6 +330,27 @@ def header_kinds():
     return sorted(out)
 
 
+def indentator_probe():
+    """what `Indentator(s)._generate_indents(dispatcher)` emits at level 1 for s = '' and s = None:
+    does an EMPTY indent string fall back to the dispatcher's indent_str (as None does)?"""
+    from calmjs.parse.handlers.indentation import Indentator
+    from calmjs.parse.unparsers.walker import Dispatcher
+    d = Dispatcher({}, None, {}, {}, indent_str='<D>')
+
+    def at_level_1(s):
+        inst = Indentator(s)
+        inst.layout_handler_indent(d, None, None, None, None)
+        return [f.text for f in inst._generate_indents(d)]
+    if at_level_1(None) != ['<D>'] or at_level_1('xy') != ['xy']:
+        raise ValueError('Indentator._generate_indents is not of the modelled shape')
+    e = at_level_1('')
+    if e == ['<D>']:
+        return True
+    if e == []:
+        return False
+    raise ValueError('Indentator(\'\') emits %r' % (e,))
+
+
 def lean_frag(f):
     from calmjs.parse.ruletypes import StreamFragment
 
@@ -380,6 +401,8 @@ def generate():
     L.append('/-- Dispatcher defaults (BaseUnparser.__call__ never overrides them) -/')
     L.append('def dispatcherIndentStr : String := %s' % lean_str(d.indent_str))
     L.append('def dispatcherNewlineStr : String := %s\n' % lean_str(d.newline_str))
+    L.append('/-- Indentator(indent_str=\'\'): the empty string is falsy and the dispatcher\'s indent_str is used (probed) -/')
+    L.append('def indentatorEmptyFallsBack : Bool := %s\n' % ('true' if indentator_probe() else 'false'))
     at = core.assignment_tokens
     if not all(isinstance(x, str) for x in at):
         raise ValueError('assignment_tokens')
